@@ -89,6 +89,46 @@ def one(ctx: Ctx, P, call, dtypes):
     return True
 
 
+def smooth_with_real_aggregators(ctx: Ctx):
+    """P-float: a smooth program and the library's own aggregators; the oracle is the aggregator applied to the
+    Jacobian assembled row by row by torch.autograd on a TWIN graph"""
+    from prop_C05 import smooth_graph
+    from torchjd import backward
+    from torchjd.aggregation import DualProj, IMTLG, Krum, MGDA, Mean, TrimmedMean, UPGrad, AlignedMTL
+    rng = ctx.rng
+    build, plan = smooth_graph(rng)
+    leaves, outs = build()
+    mrows = sum(o.numel() for o in outs)
+    name, A = rng.choice([("UPGrad", UPGrad()), ("DualProj", DualProj()), ("MGDA", MGDA()), ("Krum", Krum(1, 2)),
+                          ("TrimmedMean", TrimmedMean(1)), ("IMTLG", IMTLG()), ("AlignedMTL", AlignedMTL()),
+                          ("UPGrad(pref)", UPGrad(pref_vector=torch.arange(1.0, mrows + 1.0, dtype=torch.float64)))])
+    chunk = rng.choice([None, 1, 2, 4])
+    order = list(range(len(leaves)))
+    rng.shuffle(order)
+    backward(outs, A, inputs=[leaves[i] for i in order], parallel_chunk_size=chunk)
+    l2, o2 = build()
+    rows = []
+    for o in o2:
+        for r in range(o.numel()):
+            g = torch.autograd.grad(o.reshape(-1)[r], l2, retain_graph=True, allow_unused=True)
+            rows.append(torch.cat([(torch.zeros_like(p) if gi is None else gi).reshape(-1) for gi, p in zip(g, l2)]))
+    J = torch.stack(rows)
+    v = A(J)
+    ctx.case(("smooth", tuple(plan), name, chunk), nontrivial=True,
+             sample={"smooth_program": plan, "aggregator": name, "chunk": chunk, "rows": int(J.shape[0])})
+    ctx.count("smooth_aggregator", name)
+    off = 0
+    for p, q in zip(leaves, l2):
+        sl = v[off:off + q.numel()].reshape(q.shape)
+        off += q.numel()
+        err = float((p.grad - sl).abs().max())
+        if err > 1e-8 * max(1.0, float(sl.abs().max())):
+            ctx.violation(f"backward with {name} on a smooth program {plan}: .grad differs from the slice of "
+                          f"{name}(J) (J assembled by torch.autograd on a twin graph) by {err:.3e}",
+                          {"program": plan, "aggregator": name, "chunk": chunk, "input_order": order})
+            return
+
+
 def main(ctx: Ctx):
     ctx.lean_gate()
     n = 350 if ctx.tier == "quick" else 60000
@@ -97,6 +137,8 @@ def main(ctx: Ctx):
         call = gen_call(ctx, P)
         dtypes = [torch.float64] if call["agg"][0] == "probe" or i % 3 else [torch.float64, torch.float32]
         one(ctx, P, call, dtypes)
+        if i % 4 == 0:
+            smooth_with_real_aggregators(ctx)
     return ctx.finish(
         rule="random P-int programs (integer DAGs: affine torch ops incl. multi-output split/unbind, "
              "element-wise products, reuse, detach, leaves not requiring grad, 0-d..4-d shapes) x random calls "
